@@ -115,7 +115,9 @@ impl PartitionConfirmationState {
                 });
 
         // Update the event's confirmation status
-        event.confirmation_count = confirmation_count;
+        // Confirmation counts only grow: a stale (lower) report that arrives late must not
+        // take back a quorum that was already reported
+        event.confirmation_count = event.confirmation_count.max(confirmation_count);
         event.last_attempt = now;
         event.attempts = event.attempts.saturating_add(1);
 
